@@ -35,7 +35,9 @@ def rel_c04(row):
 LIST_CMDS = {'lpush', 'lpushx', 'rpush', 'rpushx', 'lpop', 'rpop', 'llen', 'lrange', 'lindex', 'lset', 'ltrim', 'lrem', 'lmove'}
 HASH_CMDS = {'hset', 'hsetnx', 'hget', 'hmget', 'hstrlen', 'hvals', 'hrandfield', 'hlen', 'hkeys', 'hincrby', 'hincrbyfloat', 'hgetall', 'hexists', 'hdel'}
 SET_CMDS = {'sadd', 'scard', 'sdiff', 'sdiffstore', 'sinter', 'sintercard', 'sinterstore', 'sismember', 'smembers', 'smismember', 'smove', 'spop', 'srandmember', 'srem', 'sunion', 'sunionstore'}
-ALL_DATA = [('kv', []), ('list', []), ('hash', []), ('set', [])]
+ZSET_CMDS = {'zadd', 'zcard', 'zcount', 'zdiff', 'zdiffstore', 'zincrby', 'zinter', 'zinterstore', 'zmpop', 'zmscore', 'zpopmax', 'zpopmin', 'zrandmember',
+             'zrank', 'zrevrank', 'zrem', 'zscore', 'zremrangebylex', 'zremrangebyrank', 'zremrangebyscore', 'zlexcount', 'zrange', 'zrangestore', 'zunion', 'zunionstore'}
+ALL_DATA = [('kv', []), ('list', []), ('hash', []), ('set', []), ('zset', [])]
 C01_ONLY = {'numeric-text-rewritten', 'integer-overflow-wraps', 'setrange-absent-key-creates-nothing', 'setrange-non-ascii-bytes-corrupted',
             'getrange-index-panic', 'rename-onto-itself-deletes', 'mget-empty-string-as-nil', 'flushdb-before-first-write-panics',
             'get-on-collection-answers-dump', 'simple-string-reply-carries-crlf'}
@@ -58,6 +60,7 @@ PROPS = {
     'C05': dict(suites=[('sched', [])], column='atom', clscol='acls', relevant=lambda r: 'atom' in r['f'], title='Commands are atomic'),
     'C09': dict(suites=[('aof', [])], column='dur', clscol='dcls', relevant=lambda r: 'C09' in r['f'].get('own', ''), title='Log rewrite transparent and crash-atomic'),
     'C18': dict(suites=[('pubsub', [])], column='ps', clscol='scls', relevant=lambda r: True, title='Pub/Sub'),
+    'C17': dict(suites=[('zset', [])], column='kv', relevant=lambda r: r['name'] in ZSET_CMDS, title='Sorted-set commands'),
     'C19': dict(suites=ALL_DATA, column='mem', clscol='mcls', relevant=lambda r: True, title='Memory figure is a function of the dataset'),
     'C20': dict(suites=ALL_DATA, column='iso', relevant=lambda r: True, title='Logical databases are isolated'),
 }
